@@ -1,0 +1,84 @@
+//go:build verif
+
+// Contracts for package hal, read as text by /verif/engine (govc); no code.
+
+package hal
+
+//@ mode bv
+
+// ---- what the bring-up does to a terminal, as ghost events (C16) ----------------------------
+// the methods of tty.Device are interface calls: ASSUMED to do what their names say; each call
+// is recorded (count and arguments of the most recent one)
+//@ ghost attaches uintptr
+//@ ghost attachT tty.Device
+//@ ghost attachC console.Device
+//@ ghost stateSets uintptr
+//@ ghost stateT tty.Device
+//@ ghost stateArg tty.State
+//@ ghost links uintptr
+
+//@ func (t tty.Device) AttachTo(c console.Device)
+//@   trusted
+//@   modifies attaches, attachT, attachC
+//@   ensures attaches == old(attaches) + 1 && attachT == t && attachC == c
+
+//@ func (t tty.Device) SetState(st tty.State)
+//@   trusted
+//@   modifies stateSets, stateT, stateArg
+//@   ensures stateSets == old(stateSets) + 1 && stateT == t && stateArg == st
+
+// linkTTYToConsole: the active terminal is attached to the active console, THEN becomes the
+// kernel log's sink - which hands it everything buffered so far, in order, and empties the
+// early buffer (kfmt.SetOutputSink's contract) - THEN is switched to the active state
+//@ func linkTTYToConsole()
+//@   property C16
+//@   requires !isnil(devices.activeTTY) && !isnil(devices.activeConsole) && kfmt.wfRB(&kfmt.earlyPrintBuffer)
+//@   at entry: ghost links = links + 1
+//@   modifies links, attaches, attachT, attachC, stateSets, stateT, stateArg, kfmt.outputSink, kfmt.ringBuffer.rIndex, elems(uint8), kfmt.outLen, kfmt.out
+//@   at call SetOutputSink 1: assert attaches == old(attaches) + 1 && attachT == devices.activeTTY && attachC == devices.activeConsole && stateSets == old(stateSets)
+//@   at call SetState 1: assert kfmt.rlen(&kfmt.earlyPrintBuffer) == 0
+//@   ensures once: links == old(links) + 1 && attaches == old(attaches) + 1 && stateSets == old(stateSets) + 1
+//@   ensures attached: attachT == devices.activeTTY && attachC == devices.activeConsole
+//@   ensures active: stateT == devices.activeTTY && stateArg == tty.StateActive
+//@   ensures drained: kfmt.rlen(&kfmt.earlyPrintBuffer) == 0 && kfmt.outLen == old(kfmt.outLen) + old(kfmt.rlen(&kfmt.earlyPrintBuffer)) && forall(j, int, kfmt.out[j] == ite(kfmt.inLog(j, old(kfmt.outLen), old(kfmt.rlen(&kfmt.earlyPrintBuffer))), old(kfmt.view(&kfmt.earlyPrintBuffer, j - old(kfmt.outLen))), old(kfmt.out)[j]))
+
+// ---- first console / first terminal win (C16) ---------------------------------------------------
+// callees that only choose or install a font/logo, or decode the boot command line: ASSUMED not
+// to touch the HAL's device table, the kernel log or the ghost events above
+//@ func multiboot.GetBootCmdLine() (kv map[string]string)
+//@   trusted
+//@ func logo.BestFit(consoleWidth uint32, consoleHeight uint32) (img *logo.Image)
+//@   trusted
+//@ func font.BestFit(consoleWidth uint32, consoleHeight uint32) (f *font.Font)
+//@   trusted
+//@ func font.FindByName(name string) (f *font.Font)
+//@   trusted
+//@ func (s console.LogoSetter) SetLogo(img *logo.Image)
+//@   trusted
+//@ func (s console.FontSetter) SetFont(f *font.Font)
+//@   trusted
+
+// onConsoleInit: a console that arrives when one is already active changes nothing at all;
+// the first one becomes the active console and - exactly when a terminal is already active - the
+// pair is linked, once
+//@ func onConsoleInit(cons console.Device)
+//@   property C16
+//@   requires !isnil(cons) && kfmt.wfRB(&kfmt.earlyPrintBuffer)
+//@   modifies devices.activeConsole, links, attaches, attachT, attachC, stateSets, stateT, stateArg, kfmt.outputSink, kfmt.ringBuffer.rIndex, elems(uint8), kfmt.outLen, kfmt.out
+//@   ensures tty: devices.activeTTY == old(devices.activeTTY)
+//@   ensures later: !isnil(old(devices.activeConsole)) ==> devices.activeConsole == old(devices.activeConsole) && links == old(links) && attaches == old(attaches) && stateSets == old(stateSets) && kfmt.outputSink == old(kfmt.outputSink) && kfmt.outLen == old(kfmt.outLen)
+//@   ensures first: isnil(old(devices.activeConsole)) ==> devices.activeConsole == cons && links == old(links) + ite(isnil(devices.activeTTY), 0, 1)
+//@   ensures linked: isnil(old(devices.activeConsole)) && !isnil(devices.activeTTY) ==> attachT == devices.activeTTY && attachC == cons && stateT == devices.activeTTY && stateArg == tty.StateActive && kfmt.rlen(&kfmt.earlyPrintBuffer) == 0
+
+// onDriverInit: a console goes to onConsoleInit; a terminal (that is not also a console) becomes
+// the active terminal only if there is none yet, and is linked exactly when a console is already
+// active; a later terminal, or a driver that is neither, changes nothing
+//@ func onDriverInit(info *device.DriverInfo, drv device.Driver)
+//@   property C16
+//@   requires !isnil(drv) && kfmt.wfRB(&kfmt.earlyPrintBuffer)
+//@   modifies devices.activeConsole, devices.activeTTY, links, attaches, attachT, attachC, stateSets, stateT, stateArg, kfmt.outputSink, kfmt.ringBuffer.rIndex, elems(uint8), kfmt.outLen, kfmt.out
+//@   ensures other: !implements(drv, console.Device) && !implements(drv, tty.Device) ==> devices.activeConsole == old(devices.activeConsole) && devices.activeTTY == old(devices.activeTTY) && links == old(links)
+//@   ensures latertty: !implements(drv, console.Device) && implements(drv, tty.Device) && !isnil(old(devices.activeTTY)) ==> devices.activeConsole == old(devices.activeConsole) && devices.activeTTY == old(devices.activeTTY) && links == old(links) && attaches == old(attaches) && kfmt.outputSink == old(kfmt.outputSink)
+//@   ensures firsttty: !implements(drv, console.Device) && implements(drv, tty.Device) && isnil(old(devices.activeTTY)) ==> !isnil(devices.activeTTY) && devices.activeConsole == old(devices.activeConsole) && links == old(links) + ite(isnil(devices.activeConsole), 0, 1)
+//@   ensures ttylinked: !implements(drv, console.Device) && implements(drv, tty.Device) && isnil(old(devices.activeTTY)) && !isnil(devices.activeConsole) ==> attachT == devices.activeTTY && attachC == devices.activeConsole && stateT == devices.activeTTY && stateArg == tty.StateActive && kfmt.rlen(&kfmt.earlyPrintBuffer) == 0
+//@   ensures console: implements(drv, console.Device) ==> devices.activeTTY == old(devices.activeTTY) && (!isnil(old(devices.activeConsole)) ==> devices.activeConsole == old(devices.activeConsole) && links == old(links)) && (isnil(old(devices.activeConsole)) ==> !isnil(devices.activeConsole) && links == old(links) + ite(isnil(devices.activeTTY), 0, 1))
